@@ -3,7 +3,7 @@
 # Exit 0 iff every named check reported a violation (i.e. the seed is caught).
 set -u
 ID=$1; shift
-CHECKS=${*:-$ID}
+CHECKS=${*:-${ID:0:3}}
 P=/verif/seeded/$ID/patch.diff
 cd /verif
 [ -z "$(git -C /repo status --porcelain)" ] || { echo "/repo not clean, refusing"; exit 2; }
